@@ -97,6 +97,9 @@ def jobs(tier):
         add('accepts_d2_L3', job_accepts, depth=2, maxlen=3)
         add('accepts_d1_L4', job_accepts, depth=1, maxlen=4)
         add('simplify_d2_L3', job_simplify, depth=2, maxlen=3)
+        # symbols named like the constants: Symbol('0') / Symbol('1') print like Zero() / One()
+        add('simplify_d2_L2_digits', job_simplify, depth=2, maxlen=2, syms='01')
+        add('accepts_d2_L2_digits', job_accepts, depth=2, maxlen=2, syms='01')
         # selected depth-3 shapes (root operator fixed = one cube of the depth-3 space each)
         add('accepts_star_of_d2_L3', job_accepts, depth=3, maxlen=3, shape=['I', 2])
         add('accepts_concat_d1_star_d1_L4', job_accepts, depth=3, maxlen=4, shape=['C', 1, ['I', 1]])
